@@ -68,6 +68,12 @@ Definition write_ok (names : list bytes) (n : bytes) (pre : store) (w : wop * bo
       | Some d' => match pget rel d' with Some (File _ (Raw dt)) => beq dt data | _ => false end
       | None => false
       end
+  | WLink rel t =>
+      ocontent_same (l_toml l') (l_toml l) && sboms_same (l_sboms l') (l_sboms l) &&
+      match l_dir l' with
+      | Some d' => match pget rel d' with Some (Link t') => beq t' t | _ => false end
+      | None => false
+      end
   end.
 
 Fixpoint writes_ok (names : list bytes) (n : bytes) (pre : store) (ws : list (wop * bool * store)) : bool :=
